@@ -205,7 +205,7 @@ def solve_minor_model(
                     name=f"MUL_K_{m.pos}_{m.op}_{a[0].major}_{a[0].minor}_{a[1]}",
                 ),
             )
-            for m in alleles[a]
+            for m in sorted(alleles[a])  # (a set: fix the order of the variables)
         }
         for a in alleles
     }
